@@ -126,6 +126,7 @@ info('C07',
      ['numerical canonicalisation: bounded only', 'segment MPS: not covered'],
      [])
 info('C08',
+     'P: BaseEnvironment.get_LP / get_RP, real source, finite and infinite, every L, store on/off: the environment is built from the nearest stored one by absorbing exactly the sites in between, in order (abstract leaf _contract_LP/_contract_RP with that obligation), translated by whole unit cells where needed; the cache keeps its representation invariant (a stored LP[j] covers exactly the sites < j), loses nothing, the other family is untouched, LP[i] is stored afterwards (store=True) or the cache is unchanged (store=False); ValueError iff no stored environment lies within one unit cell (contracts/c_env.py). ' 
      'B (bounded, not proof): every measurement function named in the statement on random finite MPS of one charge sector for all '
      'site families, against the dense state vector and kron operators with explicit Jordan-Wigner strings: expectation_value, '
      'expectation_value_term(s_sum), correlation_function (all i<j, i=j, i>j; fermionic; operator strings), overlap, '
@@ -217,7 +218,8 @@ info('C18',
       'engines other than TEBDEngine/TwoSiteDMRGEngine: not resumed'],
      ['Path.exists/unlink/rename and _save_to_file obey their POSIX ghost contracts (rename is an atomic replace)'])
 info('C11',
-     'P: MPO.overlap argument handling for infinite MPOs: raises nothing for max_range in {None, inf, n} and contracts '
+     'P: BaseEnvironment.get_LP / get_RP, real source, finite and infinite, every L, store on/off: the environment is built from the nearest stored one by absorbing exactly the sites in between, in order (abstract leaf _contract_LP/_contract_RP with that obligation), translated by whole unit cells where needed; the cache keeps its representation invariant (a stored LP[j] covers exactly the sites < j), loses nothing, the other family is untouched, LP[i] is stored afterwards (store=True) or the cache is unchanged (store=False); ValueError iff no stored environment lies within one unit cell (contracts/c_env.py). ' 
+     'MPO.overlap argument handling for infinite MPOs: raises nothing for max_range in {None, inf, n} and contracts '
      'max(L + 2 r, L\' + 2 r\') sites with L substituted for an unknown range (contracts/c_mpo.py). '
      'B (bounded, not proof): finite MPOs from random term lists for every site family against dense operators: expectation value, '
      'variance, sum, dagger, is_hermitian, is_equal (false positives and negatives), overlap, distance, to_TermList/from_term_list, '
@@ -225,7 +227,8 @@ info('C11',
      ['MPO numerics; infinite MPOs on a window; W tensors without identity markers: not covered'],
      [])
 info('C13',
-     'P (mechanism only, does not decide energies): Sweep.get_sweep_schedule for every L, n in {1,2}, finite and infinite: equal '
+     'P (mechanism only, does not decide energies): BaseEnvironment.get_LP / get_RP, real source, finite and infinite, every L, store on/off: the environment is built from the nearest stored one by absorbing exactly the sites in between, in order (abstract leaf _contract_LP/_contract_RP with that obligation), translated by whole unit cells where needed; the cache keeps its representation invariant (a stored LP[j] covers exactly the sites < j), loses nothing, the other family is untouched, LP[i] is stored afterwards (store=True) or the cache is unchanged (store=False); ValueError iff no stored environment lies within one unit cell (contracts/c_env.py). ' 
+     'Sweep.get_sweep_schedule for every L, n in {1,2}, finite and infinite: equal '
      'lengths, each step moves by +-1 as announced incl. the wrap to the first entry, every position visited in both directions, the '
      'environment read next is updated (contracts/c_sweeps.py). '
      'B (bounded, not proof): run() postconditions of two-site / single-site DMRG x mixers x diag_method x chi limits on chains of '
